@@ -7,7 +7,7 @@ from . import cp1252, numbers, strings
 
 
 class RefReader:
-    __slots__ = ("data", "pos", "chunked", "chunk_start", "ops", "touches")
+    __slots__ = ("data", "pos", "chunked", "chunk_start", "ops", "touches", "modes")
 
     def __init__(self, data):
         self.data = bytes(data)
@@ -16,6 +16,7 @@ class RefReader:
         self.chunk_start = 0
         self.ops = 0  # number of primitive operations (fuel accounting)
         self.touches = 0  # every interaction incl. `remaining` queries (fuel for loops that never read)
+        self.modes = None  # set to a list to log the mode in force at every read / next_chunk
 
     # -- observers
     @property
@@ -47,6 +48,8 @@ class RefReader:
     def _take(self, n):
         self.ops += 1
         self.touches += 1
+        if self.modes is not None:
+            self.modes.append(bool(self.chunked))
         n = min(n, self.remaining)
         out = self.data[self.pos:self.pos + n]
         self.pos += n
@@ -101,6 +104,8 @@ class RefReader:
     def next_chunk(self):
         self.ops += 1
         self.touches += 1
+        if self.modes is not None:
+            self.modes.append(bool(self.chunked))
         if not self.chunked:
             raise RuntimeError("not in chunked reading mode")
         p = self.brk
